@@ -623,6 +623,48 @@ def check_escape_machines(prog: Program, res: Results) -> None:
     if machines < 3:
         res.unclass(f"only {machines} quoted-state scanners recognised (expected the two of _split_attrpath and the one of _parse_npath)")
 
+def one_bare_name_language(prog: Program, res: Results, rid: str) -> None:
+    """every place that decides "may this name be written without quotes?" must decide it the same way: names are compared
+    by spelling, so two formatters that disagree on one character (`x'`) spell the same attribute differently"""
+    r = res.rule(rid, "one definition of a bare attribute name: every identifier-shaped regular expression in the package "
+                 "(`[first][rest]*`) has the same first/rest alphabets as _NPATH_IDENTIFIER_RE — a second formatter with its own "
+                 "alphabet quotes (or fails to quote) names the first one does not, and lookups by spelling stop matching", floor=1)
+    ref = None
+    found = []
+    for mod, assigns in prog.module_assigns.items():
+        for name, val in assigns.items():
+            if isinstance(val, ast.Call) and dotted(val.func) == "re.compile" and val.args and isinstance(val.args[0], ast.Constant) \
+                    and isinstance(val.args[0].value, str):
+                info = analyse_identifier_regex(val.args[0].value)
+                if info is None or len(info["first"]) < 20:
+                    continue
+                found.append((mod, name, val, info))
+                if name == "_NPATH_IDENTIFIER_RE":
+                    ref = info
+    # regex literals compiled inside functions
+    for f in prog.all_functions():
+        for c in walk_no_nested(f.node):
+            if isinstance(c, ast.Call) and dotted(c.func) in ("re.compile", "re.fullmatch", "re.match") and c.args and isinstance(c.args[0], ast.Constant) \
+                    and isinstance(c.args[0].value, str):
+                info = analyse_identifier_regex(c.args[0].value)
+                if info is not None and len(info["first"]) >= 20:
+                    found.append((f.module, f.key, c, info))
+    if ref is None:
+        res.unclass("_NPATH_IDENTIFIER_RE is not an identifier-shaped pattern any more")
+        return
+    for mod, name, val, info in found:
+        r.instances += 1
+        ok = info["first"] == ref["first"] and info["rest"] == ref["rest"]
+        r.ob(ok, {"pattern": name, "module": mod})
+        if not ok:
+            extra = sorted((info["first"] | info["rest"]) - (ref["first"] | ref["rest"]))[:6]
+            missing = sorted((ref["first"] | ref["rest"]) - (info["first"] | info["rest"]))[:6]
+            res.add(rid, (name, "bare-name alphabets disagree", "".join(extra) + "/" + "".join(missing)), f"{mod}:{getattr(val, 'lineno', 1)}",
+                    f"`{name}` admits {extra} and lacks {missing} compared with _NPATH_IDENTIFIER_RE: the two formatters spell some names "
+                    f"differently (e.g. `x'` bare in one place, `\"x'\"` in the other), so an item assignment or `set` after construction "
+                    f"does not find the binding and defines the attribute twice")
+
+
 def run(prog: Program) -> Results:
     res = Results("C12")
     check_writer(prog, res, "R-C12-1")
@@ -647,6 +689,7 @@ def run(prog: Program) -> Results:
             res.unclass(u)
     from sa.rules import poslint
     poslint.check(prog, res, "R-C12-7")
+    one_bare_name_language(prog, res, "R-C12-8")
     res.tables.append("Nix lexical facts (keywords, bare alphabet, string escapes) embedded in sa/rules/c12.py")
     res.assumptions = ["Nix string lexing: \\n \\r \\t are control characters, any other \\x is x, a raw CR is normalised to LF"]
     return res
